@@ -259,7 +259,26 @@ pub fn catch_any<T>(f: impl FnOnce() -> T) -> Result<T, PanicInfo> {
 
 /// Strip `/repo/` prefix and the line number from a location: `proofs/src/plonk/verifier.rs`.
 pub fn repo_file(loc_file: &str) -> String {
-    loc_file.trim_start_matches("/repo/").to_string()
+    if let Some(r) = loc_file.strip_prefix("/repo/") {
+        return r.to_string();
+    }
+    // a scratch copy of the repository (tools/mutant_run.sh): keep the path from the crate directory
+    for krate in ["proofs", "circuits", "curves", "zk_stdlib", "zkir", "aggregator"] {
+        for dir in ["src", "tests", "examples", "benches"] {
+            let marker = format!("/{krate}/{dir}/");
+            if let Some(i) = loc_file.find(&marker) {
+                if loc_file.starts_with('/') && !loc_file.contains("/.cargo/") {
+                    return loc_file[i + 1..].to_string();
+                }
+            }
+        }
+    }
+    loc_file.to_string()
+}
+
+/// Is the panic location inside the repository under test (or a scratch copy of it)?
+pub fn in_repo(loc_file: &str) -> bool {
+    loc_file.starts_with("/repo/") || repo_file(loc_file) != loc_file
 }
 
 // ---------------------------------------------------------------------------------------------
